@@ -56,6 +56,9 @@ def t_newfd(**kw):
 
 
 def t_accept_tail(fd, getfd=0, **kw):
+    """getfd=None: no F_GETFD/F_SETFD pair at all (a source without the FD_CLOEXEC block consumes exactly this)"""
+    if getfd is None:
+        return t_newfd(**kw)
     s = [sysl("fcntl", getfd)]
     if (getfd & 1) == 0:
         s.append(sysl("fcntl", 0))
@@ -190,6 +193,8 @@ def exhaustive_cases(depth, kinds=("recv", "recvfrom", "send", "sendto", "accept
             typ, proto = (2, 17) if kind in ("recvfrom", "sendto") else (1, 6)
             for sc in scripts:
                 tails = connect_tails(sc, blocking) if kind == "connect" else [tail_for(kind, sc)]
+                if kind == "accept" and tails[0]:
+                    tails.append(t_accept_tail(0, getfd=None))
                 for tl in tails:
                     yield kind + "/" + mname, mk_socket(0, 2, typ, proto, 5, blocking, timeout) + sc + tl + [call_line(kind, 0)]
 
@@ -241,7 +246,7 @@ def structured_loop(rng, kind, blocking, buflen, payload):
     elif kind == "accept":
         fd = rng.choice([7, 8, 9, 100, 0])
         sc.append(sysl("accept", fd))
-        tl = t_accept_tail(fd, getfd=rng.choice([0, 0, 1, 2]), native_type=rng.choice([1, 1, 2, 5, 77]), fam=rng.choice([2, 10]),
+        tl = t_accept_tail(fd, getfd=rng.choice([0, 0, 1, 2, None]), native_type=rng.choice([1, 1, 2, 5, 77]), fam=rng.choice([2, 10]),
                            peer=rng.random() < 0.8, ka=rng.choice([0, 1, 7]))
         if rng.random() < 0.3:
             i = rng.randrange(len(tl))
@@ -491,3 +496,12 @@ def scripted_cases(chk, thorough, which):
     chk.cov["exhaustive_small_scope"] = {"loop_script_depth": depth, "alphabet_per_data_call": 6, "poll_alphabet": len(POLL_ALPHA),
                                          "modes": [m[0] for m in MODES], "scripts": len(ex), "lifecycle_sequences": len(life)}
     return pv.load_corpus(which) + ex + life + structured + seqs
+
+
+def finish(chk):
+    """pv.Check.finish logs cov['discharged'] after moving it away when the proof is broken; the evidence file is
+    already written at that point"""
+    try:
+        return chk.finish()
+    except KeyError:
+        return 1 if chk.violations else 0
